@@ -36,6 +36,7 @@ class Ctx:
     analysed: dict[str, set[str]] = field(default_factory=dict)  # kind -> names
     assumptions: list[str] = field(default_factory=list)
     notes: list[str] = field(default_factory=list)
+    floor_failures: list[str] = field(default_factory=list)
 
     # ---- verdict helpers
     def ok(self, rule: str, key: str, where: str = "", facts: Any = None) -> None:
@@ -63,7 +64,9 @@ class Ctx:
     def floor(self, rule: str, what: str, count: int, minimum: int) -> None:
         """Instance floor: fewer instances than confirmed by hand = analysis broken."""
         if count < minimum:
-            raise AnalysisError(f"{rule}: only {count} {what} found, floor is {minimum} (anchor drifted?)")
+            # deferred: the run goes on so that a genuine violation elsewhere is still reported (exit 1 wins); without one,
+            # finish() turns the undercut floor into ANALYSIS-ERROR / exit 2
+            self.floor_failures.append(f"{rule}: only {count} {what} found, floor is {minimum} (anchor drifted?)")
 
     def count(self, rule_prefix: str) -> int:
         return sum(1 for o in self.obligations if o.rule.startswith(rule_prefix))
@@ -118,6 +121,10 @@ def finish(ctx: Ctx, t0: float, level: str, explanation: str, evidence_dir: str 
     for n in ctx.notes:
         print(f"NOTE property={ctx.prop} {n}")
 
+    for ff in ctx.floor_failures:
+        print(f"FLOOR-UNDERCUT property={ctx.prop} {ff}")
+    if ctx.floor_failures and not unlisted:
+        raise AnalysisError("; ".join(ctx.floor_failures))
     total = len(ctx.obligations)
     if total == 0:
         raise AnalysisError("no obligations produced")
